@@ -341,6 +341,17 @@ func runC16(w *World, r *Report) {
 	r.Rule("C16.carrier-not-forwarded", "an undesignated Option carrying no component options (callbacks, step limit, checkpoint settings of the called graph) is not distributed to any node", 2)
 	undesignatedCarrierCheck(w, r, "C16.carrier-not-forwarded", "settings addressed to the called graph itself reach its nested graphs")
 
+	r.Rule("C16.callback-designation", "callbacks designated to a node reach exactly that node: the graph takes the undesignated handlers, a node takes the handlers of EVERY option one of whose paths is [its key] (shared with C10.designation)", 2)
+	designationChecks(w, r, "C16.callback-designation")
+
+	// an option of one call is not retained by the compiled object: nothing on the run path writes a field of a compiled
+	// (shared) type — e.g. the tool list of a WithToolList call option must not become the node's tool list
+	r.Rule("C16.options-not-retained", "no run-path function writes a field of a compiled (shared) object (shared with C09.read-only-at-runtime): what a call option selects does not outlive the call", 0)
+	{
+		roots := runRoots(w)
+		ruleReadOnlyAtRuntime(w, r, "C16.options-not-retained", w.reachableFrom(roots...), compiledTypeSet(w), roots)
+	}
+
 	// ---- no-leak
 	r.Rule("C16.no-leak", "no write through inputs; per-node lists built on the per-run map element; nested options are deepCopy results; deepCopy copies slices", 6)
 	ruleNoMutateParams(w, r, "C16.no-leak", eo, nil)
